@@ -8,6 +8,24 @@ int in_kpos, in_gpos; _Bool in_collide, in_acquire;
 
 static void xv_retry_cut(void);
 #define XV_GOTO_RETRY xv_retry_cut()   /* `goto retry` after grow(): cut (ends with assume(false)), see h_emplace */
+static void do_grow_contract(struct vhm* self);
+/* try_get_value, INT mode: both unbounded loops are cut (Route X).
+ * retry loop: nothing but the caller's result accessor lives across iterations; the monitor starts a fresh iteration.
+ * chain loop: the reader holds a pointer to an extension item (or null) that it loaded after this iteration's first state load. */
+static void rd_reset(void); static void rd_chain_havoc(void);
+extern accessor rd_res0; extern _Bool rd_have_state1; extern uint64_t rd_state1_clock, rd_ptr_clock, rd_state_last_clock; extern bstate_t rd_state1; extern _Bool rd_ptr_seen; extern uint64_t rd_ptr_val;
+#ifdef XV_NT
+#define ACC_EQ(a, b) ((a).guard == (b).guard)
+#else
+#define ACC_EQ(a, b) ((a).v == (b).v)
+#endif
+#define XV_HAVOC_RETRY rd_reset(); XV_ASSUME(xv_clock < ((uint64_t)1 << 62)) /* (model: fewer than 2^62 atomic accesses in all) state, item_count, i, acc, state2, delete_marker, extension: all declared inside the retry body */
+#define XV_INV_RETRY (ACC_EQ(*result_p, rd_res0))    /* (the havoc step restarts the iteration monitor: ghost only) */
+#define XV_HAVOC_CHAIN extension = POOL_ITEM(nondet_uint()); state = nondet_u32(); rd_chain_havoc() /* acc, state2: declared inside; result: written only on the path that returns */
+#define XV_INV_CHAIN (ACC_EQ(*result_p, rd_res0) && rd_have_state1 && BS_version(state) == BS_version(rd_state1) && rd_ptr_seen && rd_ptr_val == (uint64_t)extension \
+                      && rd_state1_clock < rd_ptr_clock && rd_ptr_clock <= xv_clock && rd_state_last_clock <= xv_clock)
+#undef vhm_do_grow
+#define vhm_do_grow(self) do_grow_contract(self)
 #include "lowered.h"
 #include "spec.h"
 
@@ -77,7 +95,7 @@ static void build_state(int maxchain) {
   XV_ASSUME(inv_B(g_B, maxchain));
   mon_prev_state = g_B->state; mon_version0 = BS_version(g_B->state);
   mon_bad_slot_store = mon_bad_state_step = mon_bad_item_store = mon_bad_order = mon_lock_dropped = 0;
-  for (int p = 0; p < POOL; ++p) mon_next_store_v0[p] = 0;
+  for (int p = 0; p < POOL; ++p) mon_next_store_v0[p] = mon_unlinked_v0[p] = 0;
   mon_state_stores = mon_unlocks = mon_slot_stores = mon_head_stores = 0;
 }
 static _Bool other_unchanged(void) {
@@ -126,6 +144,10 @@ static void check_removed(struct pre s, int expect_role_change) {
     int lost = (s.k.pos >= NSLOT) ? (int)in_c[s.k.pos - NSLOT] : (int)in_c[0];
     for (int p = 0; p < POOL; ++p) if (p == lost) { role[p] = R_FREE; XV_OBL("vhm.remove.version_bumped", !mon_next_store_v0[p]); }
   }
+  /* until the version moves, only the item that holds the removed key may leave the chain: an item that is merely MOVED (first extension
+     item into the freed array slot) stays reachable at its old place until readers can tell (version bump) that the bucket changed */
+  for (int q = 0; q < XV_L; ++q) if ((unsigned)q < in_n && s.k.pos != NSLOT + q)
+    for (int p = 0; p < POOL; ++p) if (p == (int)in_c[q]) XV_OBL("vhm.remove.version_bumped", !mon_unlinked_v0[p]);
   XV_OBL("vhm.extract.pool", pool_ok(role) && eb_at_ok);
   XV_OBL("vhm.remove.version_bumped", version_delta(g_B->state) >= 1 && version_delta(g_B->state) <= 2);
   XV_OBL("vhm.remove.version_bumped", GUARANTEE_OK);
@@ -138,6 +160,7 @@ static void check_unchanged(struct pre s) {
   for (int i = 0; i < NSLOT; ++i) XV_OBL("vhm.ops.frame", g_B->key[i] == s.B0.key[i] && g_B->value[i] == s.B0.value[i]);
   XV_OBL("vhm.ops.frame", look_eq(lookup(g_B, in_key), s.k) && look_eq(lookup(g_B, in_gk), s.g) && inv_B(g_B, XV_L));
   XV_OBL("vhm.ops.frame", pool_ok(role0) && mon_slot_stores == 0 && mon_head_stores == 0);
+  for (int p = 0; p < POOL; ++p) XV_OBL("vhm.ops.frame", !mon_unlinked_v0[p]);
   XV_OBL("vhm.ops.unlock", !BS_is_locked(g_B->state) && !mon_lock_dropped);
   XV_OBL("vhm.remove.version_bumped", GUARANTEE_OK);
 }
@@ -241,14 +264,15 @@ static void vhm_grow_stub(struct vhm* self, bucket_t* bucket_p, bstate_t state) 
   stores_at_grow = mon_state_stores;
   if (grow_may_throw && nondet_bool()) xv_threw = XV_EXC_std__bad_alloc;
 }
-static void vhm_do_grow_stub(struct vhm* self) { }
 static void check_unchanged(struct pre s);
 static void xv_retry_cut(void) {
   XV_OBL("vhm.emplace.retry_state", grow_calls == 1 && grow_bucket == g_B && grow_state == g_pre.B0.state && !xv_threw);
   XV_OBL("vhm.emplace.retry_state", mon_state_stores == stores_at_grow);      /* the disabled unlocker does not write the bucket again */
   check_unchanged(g_pre);
   XV_OBL("vhm.emplace.retry_state", factory_calls == 0 && cb_count == 0 && new_count == 0);
+#ifndef XV_NT
   XV_CANARY("emplace.grow_retry");
+#endif
   XV_ASSUME(0);
 }
 void h_emplace(void) {
@@ -261,12 +285,14 @@ void h_emplace(void) {
     /* factory / new node / guard / grow threw: nothing inserted, nothing lost, the extension item (if one was taken) is back in its free list */
     check_unchanged(s);
     XV_OBL("vhm.emplace.iff_absent", cb_count == 0);
+    /* (each reachable canary costs one satisfiable solver call; the NONTRIVIAL runs keep the ones the TRIVIAL runs cannot show) */
+#ifdef XV_NT
+    if (xv_threw == XV_EXC_std__bad_alloc && !grow_calls && in_ic == NSLOT) XV_CANARY("emplace.new_threw_with_extension_item");
+#else
     if (xv_threw == XV_EXC_factory) XV_CANARY("emplace.factory_threw");
     if (xv_threw == XV_EXC_std__bad_alloc && grow_calls) XV_CANARY("emplace.grow_threw");
-#ifdef XV_NT
-    if (xv_threw == XV_EXC_std__bad_alloc && !grow_calls) XV_CANARY("emplace.new_threw");
-#endif
     if (factory_calls && in_n == 0 && in_ic == NSLOT) XV_CANARY("emplace.threw_with_extension_item");
+#endif
     return;
   }
   XV_OBL("vhm.emplace.iff_absent", r == !s.k.found);
@@ -284,7 +310,10 @@ void h_emplace(void) {
 #else
     if (in_acquire) XV_OBL("vhm.emplace.iff_absent", cb_acc.v == s.k.val);
 #endif
-    if (s.k.pos < NSLOT) XV_CANARY("emplace.found_array"); else XV_CANARY("emplace.found_chain");
+#ifndef XV_NT
+    if (s.k.pos < NSLOT) XV_CANARY("emplace.found_array");
+#endif
+    if (s.k.pos >= NSLOT) XV_CANARY("emplace.found_chain");
     return;
   }
   /* inserted: key -> the factory's value, every other key as before, Inv_B, exactly one free extension item consumed iff the array was full */
@@ -303,5 +332,175 @@ void h_emplace(void) {
     for (int p = 0; p < POOL; ++p) { role[p] = role0[p]; if (role0[p] == R_FREE && in_chain(g_B, POOL_ITEM_C(p))) { role[p] = R_CHAIN; taken++; } }
     XV_OBL("vhm.emplace.pool", pool_ok(role) && taken == (in_ic == NSLOT ? 1 : 0));
   }
-  if (in_ic < NSLOT) XV_CANARY("emplace.array"); else if (in_n == 0) XV_CANARY("emplace.first_extension"); else XV_CANARY("emplace.extension");
+#ifndef XV_NT
+  if (in_ic < NSLOT) XV_CANARY("emplace.array"); else if (in_n == 0) XV_CANARY("emplace.first_extension");
+#endif
+  if (in_n > 0) XV_CANARY("emplace.extension");
+}
+
+/* ------------------------------------------------------------------ allocate_extension_item / free_extension_item (real text; their contracts are the
+ * stubs alloc_stub / free_stub in model.h that the writer runs use) */
+hash_t in_hash; unsigned in_item;
+static void check_bucket_untouched(struct pre s) {
+  XV_OBL("vhm.ops.frame", g_B->state == s.B0.state && g_B->head == s.B0.head && look_eq(lookup(g_B, in_gk), s.g) && chain_len(g_B, XV_L) == (int)in_n);
+}
+void h_alloc(void) {
+  build_state(XV_L);
+  struct pre s = snapshot();
+  in_hash = nondet_u64();
+  extension_item* head0[XV_NEB]; _Bool any = 0; int first = -1;
+  for (int b = 0; b < XV_NEB; ++b) head0[b] = g_eb[b].head;
+  /* probe order of the real text: (hash + idx) & (extension_bucket_count - 1) for idx = 0, 1, ... */
+  for (int idx = XV_NEB - 1; idx >= 0; --idx) if ((uint32_t)idx < in_ebc) { int b = (int)((in_hash + (hash_t)idx) & (hash_t)(in_ebc - 1)); if (head0[b]) { any = 1; first = b; } }
+  extension_item* r = vhm_allocate_extension_item_real(&g_blk, in_hash);
+  XV_OBL("vhm.alloc_ext.pops_free", (r != 0) == any);
+  int role[POOL]; for (int p = 0; p < POOL; ++p) role[p] = role0[p];
+  if (r) {
+    int p = pool_index(r);
+    XV_OBL("vhm.alloc_ext.pops_free", p < POOL && role0[p] == R_FREE && p / XV_EIC == first && r == head0[first]);
+    for (int q = 0; q < POOL; ++q) if (q == p) role[q] = R_OTHER;
+    XV_CANARY("alloc.item");
+  } else { if (in_ebc == 0) XV_CANARY("alloc.no_extension_buckets"); else XV_CANARY("alloc.all_empty"); }
+  XV_OBL("vhm.alloc_ext.pops_free", pool_ok(role));            /* every other item stays where it was; all extension bucket locks released */
+  for (int b = 0; b < XV_NEB; ++b) if (!(r && b == first)) XV_OBL("vhm.alloc_ext.pops_free", g_eb[b].head == head0[b]);
+  check_bucket_untouched(s);
+}
+void h_free(void) {
+  build_state(XV_L);
+  struct pre s = snapshot();
+  in_item = nondet_uint(); XV_ASSUME(in_item < POOL && role0[in_item] == R_OTHER);      /* an item that is neither linked nor free: just unlinked by the caller */
+  extension_item* x = POOL_ITEM(in_item); extension_item* head0[XV_NEB];
+  for (int b = 0; b < XV_NEB; ++b) head0[b] = g_eb[b].head;
+  vhm_free_extension_item_real(x);
+  int role[POOL]; for (int p = 0; p < POOL; ++p) role[p] = (p == (int)in_item) ? R_FREE : role0[p];
+  XV_OBL("vhm.free_ext.own_bucket", eb_at_ok);                                /* the address arithmetic lands on the start of an extension bucket ... */
+  XV_OBL("vhm.free_ext.own_bucket", pool_ok(role));                           /* ... the one that contains the item; other lists and items unchanged; lock released */
+  for (int b = 0; b < XV_NEB; ++b) XV_OBL("vhm.free_ext.own_bucket", b == (int)in_item / XV_EIC ? (g_eb[b].head == x && x->next == head0[b]) : g_eb[b].head == head0[b]);
+  check_bucket_untouched(s);
+  XV_CANARY("free.done");
+}
+
+/* ------------------------------------------------------------------ grow(bucket, state): do_grow is a contract stub here */
+unsigned do_grow_calls; _Bool do_grow_may_throw; bstate_t state_at_do_grow; int resize_lock_at_do_grow;
+static void do_grow_contract(struct vhm* self) {
+  do_grow_calls++; state_at_do_grow = g_B->state; resize_lock_at_do_grow = self->resize_lock;
+  self->resize_lock = 0;                             /* do_grow releases the resize lock on both exits (run do_grow) */
+  if (do_grow_may_throw && nondet_bool()) xv_threw = XV_EXC_std__bad_alloc;
+}
+void h_grow(void) {
+  build_state(XV_L);
+  struct pre s = snapshot();
+  bstate_t st = g_B->state;
+  g_B->state = BS_locked(st); mon_prev_state = g_B->state;          /* the caller holds the bucket lock */
+  do_grow_may_throw = 1; do_grow_calls = 0;
+  mon_on = 1; vhm_grow_real(&g_map, g_B, st); mon_on = 0;
+  /* SEQ: nobody else is resizing */
+  XV_OBL("vhm.ops.unlock", g_B->state == st && mon_state_stores == 1 && mon_unlocks == 1);
+  XV_OBL("vhm.grow.resize_lock", do_grow_calls == 1 && resize_lock_at_do_grow == 1 && state_at_do_grow == st);   /* bucket released before do_grow locks all buckets */
+  XV_OBL("vhm.grow.resize_lock", g_map.resize_lock == 0);
+  g_B->state = st; check_unchanged(s);
+  if (xv_threw) XV_CANARY("grow.threw"); else XV_CANARY("grow.done");
+}
+
+/* ------------------------------------------------------------------ try_get_value: the lock-free reader */
+accessor rd_res0; _Bool env_on;
+static void rd_chain_havoc(void) {
+  rd_key_item = rd_val_item = -1; rd_key_clock = nondet_u64(); rd_val_clock = nondet_u64(); rd_ptr_clock = nondet_u64(); rd_ptr_val = nondet_u64();
+  rd_state_last = nondet_u32(); rd_state_last_clock = nondet_u64(); xv_clock = nondet_u64(); XV_ASSUME(xv_clock < ((uint64_t)1 << 62));
+}
+#ifdef XV_INT
+/* environment: any number of writers.  Default rely = the type invariant only: cells hold words of their type, pointers stay inside the
+ * (never deallocated while the block is guarded) extension pool, value cells of NONTRIVIAL mode name (possibly retired, but guarded) nodes. */
+void xv_env(void) {
+  if (!env_on) return;
+  g_B->state = nondet_u32(); g_B->head = POOL_ITEM(nondet_uint());
+  for (int i = 0; i < NSLOT; ++i) { g_B->key[i] = nondet_kcell();
+#ifdef XV_NT
+    g_B->value[i] = node_at(nondet_uint() % NN);
+#else
+    g_B->value[i] = nondet_val();
+#endif
+  }
+  for (int p = 0; p < POOL; ++p) { extension_item* x = POOL_ITEM_C(p); x->key = nondet_kcell(); x->next = POOL_ITEM(nondet_uint());
+#ifdef XV_NT
+    x->value = node_at(nondet_uint() % NN);
+#else
+    x->value = nondet_val();
+#endif
+  }
+}
+#endif
+void h_get_int(void) {
+#ifdef XV_INT
+  build_state(XV_L);
+  accessor res = xv_acc_any(); rd_res0 = res;
+  hash_t h = XV_HASH(in_key);
+  rd_reset(); rd_on = 1; env_on = 1;
+  _Bool r = vhm_try_get_value_int(&g_map, in_key, &res);
+  env_on = 0; rd_on = 0;
+  uint64_t keyword =
+#ifdef XV_NT
+    h;
+#else
+    in_key;
+#endif
+  if (r) {
+    /* the value handed out was loaded from the value cell of an item whose key cell had matched just before ... */
+    XV_OBL("vhm.get.validated", rd_val_item >= 0 && rd_key_item == rd_val_item && rd_key_val == keyword && rd_key_clock < rd_val_clock);
+#ifdef XV_NT
+    XV_OBL("vhm.get.validated", res.guard == (struct node*)rd_val && res.guard->data.first == in_key);     /* ... the full key matched (not just the hash) ... */
+#else
+    XV_OBL("vhm.get.validated", res.v == (vval_t)rd_val);
+#endif
+    /* ... and no removal completed or touched that slot between this iteration's first state load and a state load made after the value was read */
+    XV_OBL("vhm.get.validated", rd_have_state1 && rd_state1_clock < rd_key_clock && rd_val_clock < rd_state_last_clock
+                                && BS_version(rd_state_last) == BS_version(rd_state1));
+    if (rd_val_item < NSLOT) XV_OBL("vhm.get.validated", (uint32_t)rd_val_item < BS_item_count(rd_state1) && BS_delete_marker(rd_state_last) != (uint32_t)rd_val_item + 1);
+    else XV_OBL("vhm.get.validated", rd_ptr_seen && rd_state1_clock < rd_ptr_clock && rd_ptr_clock < rd_key_clock
+                                      && (extension_item*)rd_ptr_val == POOL_ITEM((unsigned)(rd_val_item - NSLOT)));   /* the item was reached through a pointer loaded in this iteration */
+    XV_OBL("vhm.sync.acquire", XV_IS_ACQUIRE(rd_state1_order) && XV_IS_ACQUIRE(rd_val_order) && (rd_val_item < NSLOT || XV_IS_ACQUIRE(rd_ptr_order)));
+    if (rd_val_item < NSLOT) XV_CANARY("get_int.true_array"); else XV_CANARY("get_int.true_chain");
+  } else {
+    /* absent: the last shared access is a state load that still shows this iteration's version; every slot that was occupied at the
+       first state load was examined and the chain was followed to its end; the caller's accessor is untouched */
+    XV_OBL("vhm.get.absent_validated", rd_have_state1 && rd_state_last_clock == xv_clock && rd_state1_clock < rd_state_last_clock
+                                       && BS_version(rd_state_last) == BS_version(rd_state1));
+    XV_OBL("vhm.get.absent_validated", (rd_slots_seen | (~0u << BS_item_count(rd_state1))) == ~0u);
+    XV_OBL("vhm.get.absent_validated", rd_ptr_seen && rd_ptr_val == 0 && rd_state1_clock < rd_ptr_clock);
+    XV_OBL("vhm.get.absent_validated", ACC_EQ(res, rd_res0));
+    XV_OBL("vhm.sync.acquire", XV_IS_ACQUIRE(rd_state1_order) && XV_IS_ACQUIRE(rd_ptr_order));
+    XV_CANARY("get_int.false");
+  }
+#endif
+}
+
+/* SOLO / SEQ: no interference.  From any quiescent bucket (a writer may hold the lock; a removal may be in flight: delete marker set)
+ * the reader terminates within the shape bound (unwinding assertions = vhm.get.terminates) and answers like the abstract map. */
+_Bool in_midop; uint32_t in_marker;
+void h_get_seq(void) {
+  build_state(XV_L);
+  struct pre s = snapshot();
+  in_midop = nondet_bool(); in_marker = nondet_u32();
+  if (in_midop) { XV_ASSUME(in_marker >= 1 && in_marker <= in_ic); g_B->state = BS_set_delete_marker(BS_locked(g_B->state), in_marker); }
+  else if (nondet_bool()) g_B->state = BS_locked(g_B->state);
+  accessor res = xv_acc_any(), res0 = res;
+  _Bool r = vhm_try_get_value(&g_map, in_key, &res);
+  if (!in_midop || s.k.pos != (int)in_marker - 1) {
+    XV_OBL("vhm.get.seq_lookup", r == s.k.found);
+  } else XV_OBL("vhm.get.seq_lookup", !r);           /* the slot being deleted is skipped */
+  if (r) {
+#ifdef XV_NT
+    XV_OBL("vhm.get.seq_lookup", res.guard == s.k.cell && res.guard->data.second == s.k.val);
+#else
+    XV_OBL("vhm.get.seq_lookup", res.v == s.k.val);
+#endif
+    if (s.k.pos < NSLOT) XV_CANARY("get_seq.true_array"); else XV_CANARY("get_seq.true_chain");
+  } else {
+    XV_OBL("vhm.get.seq_lookup", ACC_EQ(res, res0));
+    XV_CANARY("get_seq.false");
+#ifdef XV_NT
+    if (in_collide && in_n > 0) XV_CANARY("get_seq.false_collision_in_chain");
+#endif
+  }
+  XV_OBL("vhm.ops.frame", g_B->head == s.B0.head && look_eq(lookup(g_B, in_gk), s.g) && pool_ok(role0));    /* a reader writes nothing */
 }
